@@ -4,6 +4,7 @@
   One answer per line:    field | field …           or `reject` / `bad-op`
 -/
 import PySpikeVerif.Model.Api
+import PySpikeVerif.Model.Pyx
 open PySpike
 
 def parseQ (s : String) : Option Q :=
@@ -160,6 +161,32 @@ def handle (op : String) (f : List (List Q)) : String :=
   | "disc_avrg_all", [x, y, mp] => showFields [[(mkDisc x y mp).avrgAll]]
   | "disc_avrg", [x, y, mp, [a, b]] => showOpt (((mkDisc x y mp).avrg a b).map fun v => [[v]])
   | "disc_plot", [x, y, mp, [k]] => showFields [(mkDisc x y mp).plottable k.num.toNat]
+  -- single-pass routines: model answer = average / integral of the model profile
+  | "isi_dist_k", [s1, s2, [ts, te, m]] =>
+    if s1.isEmpty ∨ s2.isEmpty then "reject" else
+    let r := isiProfile s1 s2 ts te m; showFields [[(Pwc.mk r.1 r.2).avrgAll]]
+  | "spike_dist_k", [s1, s2, [ts, te, m, ri]] =>
+    if s1.isEmpty ∨ s2.isEmpty then "reject" else
+    let r := spikeProfile s1 s2 ts te m (toBool ri); showFields [[(Pwl.mk r.1 r.2.1 r.2.2).avrgAll]]
+  | "coinc_value_k", [s1, s2, [ts, te, mt, m]] =>
+    let r := (Disc.mk (coincProfile s1 s2 ts te mt m)).integralAll; showFields [[r.1, r.2]]
+  | "order_value_k", [s1, s2, [ts, te, mt, m]] =>
+    let r := (Disc.mk (orderProfile s1 s2 ts te mt m)).integralAll; showFields [[r.1, r.2]]
+  | "dir_value_k", [s1, s2, [ts, te, mt, m]] => showFields [[qsum (dirProfile s1 s2 ts te mt m).1]]
+  -- the Cython-specific models (Model/Pyx.lean)
+  | "pyx_isi_profile", [s1, s2, [ts, te, m]] =>
+    if s1.isEmpty ∨ s2.isEmpty then "reject" else
+    let r := isiProfilePyx s1 s2 ts te m; showFields [r.1, r.2]
+  | "pyx_isi_dist", [s1, s2, [ts, te, m]] =>
+    if s1.isEmpty ∨ s2.isEmpty then "reject" else showFields [[isiDistancePyx s1 s2 ts te m]]
+  | "pyx_spike_profile", [s1, s2, [ts, te, m, ri]] =>
+    if s1.isEmpty ∨ s2.isEmpty then "reject" else
+    let r := spikeProfilePyx s1 s2 ts te m (toBool ri); showFields [r.1, r.2.1, r.2.2]
+  | "pyx_spike_dist", [s1, s2, [ts, te, m, ri]] =>
+    if s1.isEmpty ∨ s2.isEmpty then "reject" else showFields [[spikeDistancePyx s1 s2 ts te m (toBool ri)]]
+  | "pyx_coinc_value", [s1, s2, [ts, te, mt, m]] => let r := coincValuePyx s1 s2 ts te mt m; showFields [[r.1, r.2]]
+  | "pyx_order_value", [s1, s2, [ts, te, mt, m]] => let r := orderValuePyx s1 s2 ts te mt m; showFields [[r.1, r.2]]
+  | "pyx_dir_value", [s1, s2, [ts, te, mt, m]] => showFields [[dirValuePyx s1 s2 ts te mt m]]
   | _, _ => handleApi op f
 
 partial def loop (h : IO.FS.Stream) (out : IO.FS.Stream) : IO Unit := do
